@@ -53,6 +53,9 @@ def run(ctx, rep):
     rep.rule('C05.4', 'a cached slice is written whole (start 0, length byte_size), only by a function that resolved the '
                       'new-cluster state of its host cluster, and not before the zeroing of that cluster completed')
     d = c04.common(ctx, rep)
+    if getattr(d, 'flag_invariant_used', False):
+        rep.assume('need_flush read as false while the flush mutex is held means that no metadata is dirty only in RAM '
+                   '(the flag protocol decided by C18.1/C18.2)')
     # C05.1
     ex = d.exits.get('fsync_range', {})
     n = 0
